@@ -73,6 +73,18 @@ static Case reduced(const Case& c, const std::string& key, const Path64& item) {
   Case r; r.kv = c.kv; r.kv.erase("bundle"); r.p64[key] = Paths64(1, item); return r;
 }
 
+
+// Violations are logged at most kLogCap times per (claim, tags) signature and process; further ones are only counted
+// (known findings are matched by claim + tag, so more lines of the same signature add nothing but log volume).
+static const int kLogCap = 25;
+static void vio(Ctx& ctx, const std::string& claim, const std::vector<std::string>& tags, const Case& w, const std::string& detail) {
+  static std::map<std::string, int> seen;
+  std::string sig = claim; for (auto& t : tags) sig += "|" + t;
+  ctx.count("violating_items_" + claim.substr(4) + "_" + (tags.empty() ? std::string("untagged") : tags[0]));
+  if (++seen[sig] > kLogCap) { ctx.count("violations_counted_but_not_logged_beyond_cap"); return; }
+  ctx.violation(claim, tags, w, detail);
+}
+
 // ------------------------------------------------------------------------------------------------ boundary grids
 static const int64_t P31 = 1ll << 31, P32 = 1ll << 32, P61 = 1ll << 61, P62 = 1ll << 62;
 static const int64_t kB22[22] = { 0, 1, -1, 2, -2, P31 - 1, -(P31 - 1), P31, -P31, P31 + 1, -(P31 + 1), P32, -P32,
@@ -118,7 +130,7 @@ static void judge_mul(Ctx& ctx, const Case& c, bool from_replay) {
     if ((a >> 32) && (b >> 32) && (a & 0xFFFFFFFFull) && (b & 0xFFFFFFFFull)) ++carry_heavy;
     if (r.lo != tlo || r.hi != thi) {
       ctx.evaluated(calls);
-      ctx.violation("C18.multiply", { r.hi != thi ? (r.lo != tlo ? "lo_and_hi_wrong" : "hi_wrong") : "lo_wrong" }, reduced(c, "T", it),
+      vio(ctx, "C18.multiply", { r.hi != thi ? (r.lo != tlo ? "lo_and_hi_wrong" : "hi_wrong") : "lo_wrong" }, reduced(c, "T", it),
         "Multiply(" + su64(a) + "," + su64(b) + ") = {lo " + su64(r.lo) + ", hi " + su64(r.hi) + "} exact {lo " + su64(tlo) + ", hi " + su64(thi) + "}");
       return;
     }
@@ -154,7 +166,7 @@ static void judge_pae(Ctx& ctx, const Case& c, bool from_replay) {
       std::vector<std::string> tags = { got ? "reported_equal_but_differ" : "reported_unequal_but_equal", std::string("branch_") + C18_BRANCH };
       if (hasmin) tags.push_back("int64_min_argument");
       ctx.evaluated(calls);
-      ctx.violation("C18.products_equal", tags, reduced(c, "T", it),
+      vio(ctx, "C18.products_equal", tags, reduced(c, "T", it),
         "ProductsAreEqual(" + std::to_string(a) + "," + std::to_string(b) + "," + std::to_string(cc) + "," + std::to_string(d) + ") = " +
         (got ? "true" : "false") + " but a*b = " + s128(ab) + ", c*d = " + s128(cd));
       return;
@@ -195,7 +207,7 @@ static void judge_tri(Ctx& ctx, const Case& c, bool from_replay) {
     ++calls;
     if (got != truth) {
       ctx.evaluated(calls);
-      ctx.violation("C18.cross_sign", { "expected_" + std::to_string(truth) + "_got_" + std::to_string(got), std::string("branch_") + C18_BRANCH },
+      vio(ctx, "C18.cross_sign", { "expected_" + std::to_string(truth) + "_got_" + std::to_string(got), std::string("branch_") + C18_BRANCH },
         reduced(c, "T", it), "CrossProductSign(" + spt(p1) + "," + spt(p2) + "," + spt(p3) + ") = " + std::to_string(got) +
         " but (p2-p1)x(p3-p2): a*b = " + s128(ab) + ", c*d = " + s128(cd));
       return;
@@ -204,7 +216,7 @@ static void judge_tri(Ctx& ctx, const Case& c, bool from_replay) {
     ++calls;
     if (col != (truth == 0)) {
       ctx.evaluated(calls);
-      ctx.violation("C18.is_collinear", { col ? "reported_collinear_but_not" : "reported_not_collinear_but_is", std::string("branch_") + C18_BRANCH },
+      vio(ctx, "C18.is_collinear", { col ? "reported_collinear_but_not" : "reported_not_collinear_but_is", std::string("branch_") + C18_BRANCH },
         reduced(c, "T", it), "IsCollinear(" + spt(p1) + "," + spt(p2) + "," + spt(p3) + ") = " + (col ? "true" : "false") +
         " but a*b = " + s128(ab) + ", c*d = " + s128(cd));
       return;
@@ -260,7 +272,7 @@ static void judge_pip(Ctx& ctx, const Case& c, bool from_replay) {
     if (got != truth) {
       Case w; w.kv = c.kv; w.kv.erase("bundle"); w.p64["POLY"] = PP; w.p64["Q"] = Paths64(1, Path64(1, q));
       ctx.evaluated(calls);
-      ctx.violation("C18.point_in_polygon", { std::string("expected_") + kPipName[truth] + "_got_" + kPipName[got] }, w,
+      vio(ctx, "C18.point_in_polygon", { std::string("expected_") + kPipName[truth] + "_got_" + kPipName[got] }, w,
         "PointInPolygon(" + spt(q) + ") = " + kPipName[got] + " but the exact even-odd/on-edge test says " + kPipName[truth] +
         " (polygon of " + std::to_string(poly.size()) + " points)");
       return;
@@ -292,9 +304,8 @@ static void judge_isect(Ctx& ctx, const Case& c, bool from_replay) {
   auto report = [&](const std::string& claim, const std::vector<std::string>& tags, const Path64& it, const std::string& detail) {
     std::string sig = claim; for (auto& t : tags) sig += "|" + t;
     ++nviol;
-    ++hist["isect_violating_items_" + claim.substr(4) + "_" + tags[0]];
     if (!reported.insert(sig).second) return;
-    ctx.violation(claim, tags, reduced(c, "SEG", it), detail);
+    vio(ctx, claim, tags, reduced(c, "SEG", it), detail);
   };
   ctx.begin(c);
   for (const Path64& it : SS) {
@@ -449,7 +460,7 @@ static void judge_area(Ctx& ctx, const Case& c, bool from_replay) {
       ctx.evaluated(calls);
       char buf[200]; snprintf(buf, sizeof buf, "2*Area = %.17g, |difference| = %.6Lg, bound (n+2)*2^-52*sum|term| = %.6Lg", 2.0 * A, fabsl(diff), tol);
       Case w = reduced(c, "PATHS", p);
-      ctx.violation("C18.area", { n < 3 ? "fewer_than_3_points" : ((n & 1) ? "odd_point_count" : "even_point_count"), "single_path" }, w,
+      vio(ctx, "C18.area", { n < 3 ? "fewer_than_3_points" : ((n & 1) ? "odd_point_count" : "even_point_count"), "single_path" }, w,
         "Area(path of " + std::to_string(n) + " points): exact doubled shoelace area " + s128(ex) + ", " + buf);
       return;
     }
@@ -462,7 +473,7 @@ static void judge_area(Ctx& ctx, const Case& c, bool from_replay) {
     if (!(fabsl(diff) <= tol)) {
       ctx.evaluated(calls);
       char buf[200]; snprintf(buf, sizeof buf, "2*Area = %.17g, |difference| = %.6Lg, bound %.6Lg", 2.0 * A, fabsl(diff), tol);
-      ctx.violation("C18.area", { "paths_overload" }, c, "Area(paths of " + std::to_string(PP.size()) + " paths): exact doubled area " + s128(ex_sum) + ", " + buf);
+      vio(ctx, "C18.area", { "paths_overload" }, c, "Area(paths of " + std::to_string(PP.size()) + " paths): exact doubled area " + s128(ex_sum) + ", " + buf);
       return;
     }
   }
@@ -852,7 +863,7 @@ static void build_schedule(Ctx& ctx) {
 }
 
 static void grid_case(Ctx& ctx, uint64_t i) {
-  int tset = (int)ctx.optint("tset", 8);
+  int tset = (int)ctx.optint("tset", ctx.quick() ? 10 : 12);
   if (tset < 2 || tset > 12) { fprintf(stderr, "mon_c18: --tset must be 2..12\n"); exit(2); }
   GridLayout g = grid_layout(tset);
   if (i >= g.chunks()) { ctx.count("grid_chunk_index_beyond_end"); return; }
@@ -914,7 +925,7 @@ void vf_end(Ctx& ctx) {
   if (!ctx.replay_path.empty() || ctx.only >= 0) return;
   // the expected sizes of the exhaustive scopes are reported once (shard 0) so that the orchestrator can compare
   if (ctx.optstr("mode", "rand") == "grid" && ctx.shard == 0) {
-    GridLayout g = grid_layout((int)ctx.optint("tset", 8));
+    GridLayout g = grid_layout((int)ctx.optint("tset", ctx.quick() ? 10 : 12));
     const std::string cfg = ctx.cfg_name;
     ctx.count("grid_pae_tuples_expected_" + cfg, (long long)g.npae);
     ctx.count("grid_point_triples_expected_" + cfg, (long long)g.ntri);
